@@ -155,10 +155,10 @@ def generate_model_code_py(
         ],
         sized=False,
         model_fn=model_fn,
-        variables_template="    {} = variables",
+        variables_template="    [{}] = variables",
         assignment_template="    {k}: float = {v}",
         sympy_inline_fn=sympy_to_inline_py,
-        return_template="    return {}",
+        return_template="    return [{}]",
         end=None,
         free_parameters=free_parameters,
         custom_fns={} if custom_fns is None else custom_fns,
